@@ -48,6 +48,8 @@ var methodShapes = []secShape{
 	{"S1[a]", []scen.Sec{sec("S1", "a")}},
 	{"s1[a]|s[b]", []scen.Sec{sec("s1", "a"), sec("s", "b")}},
 	{"s1x[a]", []scen.Sec{sec("s1x", "a")}},
+	// the very same alternative written twice
+	{"s1[a]|s1[a]", []scen.Sec{sec("s1", "a"), sec("s1", "a")}},
 }
 
 var ctlShapes = []secShape{
@@ -56,6 +58,7 @@ var ctlShapes = []secShape{
 	{"s2[c]|s1[d]", []scen.Sec{sec("s2", "c"), sec("s1", "d")}},
 	{"zz[c]", []scen.Sec{sec("zz", "c")}},
 	{"s2(no properties)", []scen.Sec{{Scheme: "s2", Scopes: []string{}, NoProps: true}}},
+	{"s1[c]|s1[c]|s2[d]", []scen.Sec{sec("s1", "c"), sec("s1", "c"), sec("s2", "d")}},
 }
 
 type cfgShape struct {
